@@ -57,7 +57,7 @@ func layoutDims(l pdfw.Layout, o pdfw.DocOpts, revs int) map[string]string {
 		"filter": l.Filter, "split": fmt.Sprint(l.Split), "splitnows": fmt.Sprint(l.SplitNoWS && l.Split > 1), "big": big,
 		"numbering": l.Numbering, "shuffle": fmt.Sprint(l.Shuffle), "resind": fmt.Sprint(l.ResIndirect),
 		"depth": fmt.Sprint(o.TreeDepth), "inherit": o.Inherit, "override": fmt.Sprint(o.Override), "revs": fmt.Sprint(revs),
-		"xrefpred": fmt.Sprint(l.XRefPredictor),
+		"xrefpred": fmt.Sprint(l.XRefPredictor), "extends": fmt.Sprint(l.ObjStmExtends && l.ObjStm != "none"),
 	}
 }
 
@@ -79,7 +79,7 @@ func makeCase(c *fw.Ctx, id string) *Case {
 	case "dim":
 		// vary exactly one dimension away from the baseline
 		full := pdfw.RandomLayout(r, 1)
-		dims := []string{"eol", "tight", "xref", "objstm", "len", "filter", "split", "splitnows", "big", "numbering", "shuffle", "resind", "depth", "inherit", "override", "revs", "contarr", "xrefpred"}
+		dims := []string{"eol", "tight", "xref", "objstm", "len", "filter", "split", "splitnows", "big", "numbering", "shuffle", "resind", "depth", "inherit", "override", "revs", "contarr", "xrefpred", "extends"}
 		switch d := dims[idx%len(dims)]; d {
 		case "eol":
 			cs.Lay.EOL = []string{"\r\n", "\r"}[r.Intn(2)]
@@ -135,6 +135,10 @@ func makeCase(c *fw.Ctx, id string) *Case {
 		case "xrefpred":
 			cs.Lay.XRef = []string{"stream"}
 			cs.Lay.XRefPredictor = true
+		case "extends":
+			cs.Lay.XRef = []string{"stream"}
+			cs.Lay.ObjStm = "all"
+			cs.Lay.ObjStmExtends = true
 		}
 	default: // rnd
 		cs.Revs = 1 + []int{0, 0, 1, 2, 3}[r.Intn(5)]
@@ -495,7 +499,7 @@ func Run(c *fw.Ctx) {
 	for i := 0; i < c.N(12, 40); i++ {
 		ids = append(ids, fmt.Sprintf("base:%d", i))
 	}
-	for i := 0; i < c.N(18*4, 18*40); i++ {
+	for i := 0; i < c.N(19*4, 19*40); i++ {
 		ids = append(ids, fmt.Sprintf("dim:%d", i))
 	}
 	for i := 0; i < c.N(400, 20000); i++ {
